@@ -55,6 +55,8 @@ type Sched struct {
 	Trace    bool
 	exited   chan struct{}
 	ptrSeq   map[uintptr]int
+	noYield  int
+	Clock    int // logical event clock for harness oracles (Tick)
 }
 
 var S *Sched
@@ -82,6 +84,28 @@ func (s *Sched) choose(n int, preempt bool, kind string) int {
 
 // Choose is an environment choice point (exhaustively enumerated).
 func Choose(n int, kind string) int { return S.choose(n, false, "env:"+kind) }
+
+// Atomic runs fn without any scheduling point: shim operations inside it take
+// effect immediately (and must not block). Oracles use it to observe state "at
+// the instant" of an event without giving other threads a chance to run.
+func Atomic(fn func()) {
+	if S == nil {
+		fn()
+		return
+	}
+	S.noYield++
+	defer func() { S.noYield-- }()
+	fn()
+}
+
+// Tick advances and returns the logical clock of the execution.
+func Tick() int {
+	if S == nil {
+		return 0
+	}
+	S.Clock++
+	return S.Clock
+}
 
 // Active reports whether a controlled execution is running.
 func Active() bool { return S != nil && !S.aborting }
@@ -167,6 +191,13 @@ func Yield(enabled func() bool, desc string) {
 	}
 	if s.aborting {
 		runtime.Goexit()
+	}
+	if s.noYield > 0 {
+		// inside Atomic: the operation must be able to proceed at once
+		if enabled != nil && !enabled() {
+			panic("vrt: operation would block inside an Atomic section: " + desc)
+		}
+		return
 	}
 	t := s.cur
 	s.Steps++
